@@ -726,11 +726,16 @@ class Engine(object):
                 # step check of an enclosing loop would not cover its effect
                 if not any(h != lb and h in loopbody[lb] for h in loopbody):
                     st.aux[('snap', lb)] = (dict(st.mem), dict(st.hv))
+                self.emit(st, Ev('loophead', fn=f, site=(f.name, 'loop', lb)), rules, f)
             if prev is not None and (prev, lb) in back:
                 n = st.visits.get(lb, 0)
                 if n >= 1:
                     self.stats['cut'] += 1
                     if self.coind:
+                        for i, r in enumerate(rules):
+                            cut = getattr(r, 'on_cut', None)
+                            if cut is not None:
+                                cut(st.rs[i], st, f, lb)
                         self._coind_check(f, st, lb, prev)
                     continue
                 st.visits[lb] = n + 1
@@ -784,7 +789,10 @@ class Engine(object):
                         continue
                     wr = True if cn is None else (self.oracle.may_write_fields(cn)
                                                   or cn.startswith('llvm.mem'))
-                    for a in ins.args or ():
+                    argw = self._summary_arg_writes(cn) if (self.coind and cn is not None) else None
+                    for ai, a in enumerate(ins.args or ()):
+                        if argw is not None and ai not in argw:
+                            continue       # an expanded callee that does not store through this argument
                         if a and a[0] == '%':
                             v = st.env.get(a)
                             if v is None:
@@ -831,6 +839,34 @@ class Engine(object):
                     st.hv.setdefault(at, ('loop', f.name, hdr))
         st.mem.update(keepm)
         return roots
+
+    def _summary_arg_writes(self, name):
+        """For a callee with a summary: the set of argument positions it may store through (directly
+        or by passing them on to a callee it does not expand); None when the callee is opaque."""
+        r = self._argw.get(name) if hasattr(self, '_argw') else None
+        if not hasattr(self, '_argw'):
+            self._argw = {}
+        if name in self._argw:
+            return self._argw[name]
+        summ = self.summary(name) if name in self.mod.funcs else OPAQUE
+        if summ is OPAQUE:
+            self._argw[name] = None
+            return None
+        w = set()
+        for sp in summ:
+            for (addr, v) in sp.stores:
+                for at, c in addr[2]:
+                    if at[0] == 'arg':
+                        w.add(at[1])
+            for e in sp.events:
+                if e.kind in ('call', 'throw') and not e.expanded and e.args:
+                    for t in e.args:
+                        if is_lin(t):
+                            for at, c in t[2]:
+                                if at[0] == 'arg':
+                                    w.add(at[1])
+        self._argw[name] = w
+        return w
 
     # ---- co-induction variables (opt-in) ---------------------------------------------------------
     # At the first re-entry of a loop header every header phi and every memory cell the body writes
